@@ -294,8 +294,10 @@ def nud__child_path(self: XPathToken) -> XPathToken:
 @method('//')
 @method('/')
 def led__child_or_descendant_path(self: XPathToken, left: XPathToken) -> XPathToken:
-    if left.symbol in ('/', '//', ':', '[', '$'):
-        pass
+    if left.symbol in ('/', '//', ':', '[', '$', '('):
+        pass  # also a parenthesized expression can be the first step: FilterExpr '/' RelativeLocationPath
+    elif left.label == 'function':
+        pass  # and a function call too, e.g. id('a')/b
     elif left.label not in self.parser.PATH_STEP_LABELS and \
             left.symbol not in self.parser.PATH_STEP_SYMBOLS:
         raise self.wrong_syntax()
